@@ -1,5 +1,5 @@
 (* Extraction of the symbol-level operations (delete_symbols, retarget_symbol_uses). *)
 From Coq Require Import Extraction ExtrOcamlBasic ZArith List String.
-From GR Require Import Base.Result Sym.Delete Sym.Retarget Sym.AbiRules.
+From GR Require Import Base.Result Sym.Delete Sym.Retarget Sym.AbiRules Sym.DeleteRequests.
 Extraction Language OCaml.
-Extraction "sym_model.ml" delete_symbols mk_dstate mk_cfid retarget_symbol_uses mk_rstate mk_xsite mk_xexpr mk_rule mk_sinfo abi_rules requests mk_reqsym Z.add Z.of_nat String.eqb.
+Extraction "sym_model.ml" delete_symbols mk_dstate mk_cfid retarget_symbol_uses mk_rstate mk_xsite mk_xexpr mk_rule mk_sinfo abi_rules requests mk_reqsym delete_requests Z.add Z.of_nat String.eqb.
